@@ -14,11 +14,13 @@ type Point struct {
 	Costly bool // choosing != 0 here is a deviation (preemption / non-default pool answer)
 	Kind   string
 	Chosen int
+	Desc   string
 }
 
 // chooser replays a prefix, then answers 0.
 type chooser struct {
 	prefix []int
+	expect []Point // what the parent execution saw at the prefix points (determinism check)
 	trace  []Point
 	e      *Explorer
 	fresh  bool
@@ -32,6 +34,9 @@ func (c *chooser) Choose(n int, preempt bool, kind string) int {
 	costly := (kind == "sched" && preempt) || kind == "pool"
 	if i < len(c.prefix) {
 		ch = c.prefix[i]
+		if i < len(c.expect) && (c.expect[i].N != n || c.expect[i].Kind != kind) {
+			panic(divergence{fmt.Sprintf("replay diverged at point %d: the parent execution saw %d alternatives (%s) %s, the replay sees %d (%s) %s", i, c.expect[i].N, c.expect[i].Kind, c.expect[i].Desc, n, kind, vsched.LastEnabled)})
+		}
 		if ch >= n {
 			panic(divergence{fmt.Sprintf("replay diverged at point %d: choice %d of %d (%s)", i, ch, n, kind)})
 		}
@@ -44,7 +49,7 @@ func (c *chooser) Choose(n int, preempt bool, kind string) int {
 		c.e.visited[k] = true
 		c.e.Stats.States++
 	}
-	c.trace = append(c.trace, Point{N: n, Costly: costly, Kind: kind, Chosen: ch})
+	c.trace = append(c.trace, Point{N: n, Costly: costly, Kind: kind, Chosen: ch, Desc: vsched.LastEnabled})
 	return ch
 }
 
@@ -71,6 +76,7 @@ type Explorer struct {
 	Stop     func() bool
 	Stats    Stats
 	visited  map[uint64]bool
+	expect   map[*int][]Point
 }
 
 func cost(trace []Point, upto int) int {
@@ -85,6 +91,10 @@ func cost(trace []Point, upto int) int {
 
 func (e *Explorer) run(prefix []int, count bool) (choices []int, trace []Point, pruned bool) {
 	c := &chooser{prefix: prefix, e: e}
+	if len(prefix) > 0 {
+		c.expect = e.expect[&prefix[0]]
+		delete(e.expect, &prefix[0])
+	}
 	pruned = e.Exec(c)
 	if count {
 		e.Stats.Executions++
@@ -122,6 +132,7 @@ func (e *Explorer) children(prefixLen int, choices []int, trace []Point) [][]int
 			copy(p, choices[:i])
 			p[i] = alt
 			out = append(out, p)
+			e.expect[&p[0]] = trace[:i+1]
 		}
 	}
 	return out
@@ -132,6 +143,7 @@ func (e *Explorer) children(prefixLen int, choices []int, trace []Point) [][]int
 // shard 0 alone accounts for it), then subtrees are dealt round-robin.
 func (e *Explorer) Explore() {
 	e.visited = map[uint64]bool{}
+	e.expect = map[*int][]Point{}
 	if e.N <= 1 || e.StateKey != nil {
 		// state-pruned search is not sharded: the visited set must be global
 		e.dfs([][]int{nil}, true)
